@@ -81,6 +81,12 @@ pub fn depth1() -> Vec<String> {
 }
 
 fn wrap(pragma: &str, stmts: &[String], inits: &[String]) -> String {
+    wrap_with(pragma, stmts, inits, &[])
+}
+
+/// `decl_types`: expressions used as the declared type of a state variable and of a struct field (the parser reads
+/// declared types with its general expression grammar)
+fn wrap_with(pragma: &str, stmts: &[String], inits: &[String], decl_types: &[String]) -> String {
     let mut t = String::new();
     if !pragma.is_empty() {
         t.push_str(&format!("pragma solidity {};\n", pragma));
@@ -88,6 +94,9 @@ fn wrap(pragma: &str, stmts: &[String], inits: &[String]) -> String {
     t.push_str("contract C {\n    using SafeMath for uint256;\n    uint256 x;\n    uint256[] arr;\n    address owner;\n    IERC20 token;\n");
     for (i, e) in inits.iter().enumerate() {
         t.push_str(&format!("    uint256 public v{} = {};\n", i, e));
+    }
+    for (i, e) in decl_types.iter().enumerate() {
+        t.push_str(&format!("    {} w{};\n    struct SW{} {{ uint8 a; {} b; uint8 c; }}\n", e, i, i, e));
     }
     t.push_str("    function f(uint256 a, address b) public returns (uint256) {\n");
     for s in stmts {
@@ -100,7 +109,9 @@ fn wrap(pragma: &str, stmts: &[String], inits: &[String]) -> String {
 }
 
 fn in_context(e: &str, which: usize) -> String {
-    match which % 12 {
+    match which % 14 {
+        12 => format!("arr[0] = {} + 1;", e),
+        13 => format!("arr[1] = {} * arr[1];", e),
         0 => format!("{};", e),
         1 => format!("x = {};", e),
         2 => format!("require({}, \"m\");", e),
@@ -154,16 +165,18 @@ pub fn file(k: u64, rng: &Rng, forms: &[String]) -> Option<(String, String)> {
     let pragma = PRAGMAS[(k % PRAGMAS.len() as u64) as usize];
     let stmts: Vec<String> = exprs.iter().enumerate().map(|(i, e)| in_context(e, i + k as usize)).collect();
     let inits: Vec<String> = if k % 3 == 0 { exprs.iter().take(4).cloned().collect() } else { vec![] };
-    let whole = wrap(pragma, &stmts, &inits);
+    let decls: Vec<String> = if k % 4 == 1 { exprs.iter().skip(4).take(6).cloned().collect() } else { vec![] };
+    let whole = wrap_with(pragma, &stmts, &inits, &decls);
     if crate::dets::parses(&whole) {
         return Some((name, whole));
     }
     let ok_stmts: Vec<String> = stmts.into_iter().filter(|s| crate::dets::parses(&wrap(pragma, std::slice::from_ref(s), &[]))).collect();
     let ok_inits: Vec<String> = inits.into_iter().filter(|e| crate::dets::parses(&wrap(pragma, &[], std::slice::from_ref(e)))).collect();
-    if ok_stmts.is_empty() && ok_inits.is_empty() {
+    let ok_decls: Vec<String> = decls.into_iter().filter(|e| crate::dets::parses(&wrap_with(pragma, &[], &[], std::slice::from_ref(e)))).collect();
+    if ok_stmts.is_empty() && ok_inits.is_empty() && ok_decls.is_empty() {
         return None;
     }
-    let t = wrap(pragma, &ok_stmts, &ok_inits);
+    let t = wrap_with(pragma, &ok_stmts, &ok_inits, &ok_decls);
     if crate::dets::parses(&t) {
         Some((name, t))
     } else {
